@@ -77,7 +77,12 @@ Suffixed(ts, i, ctx) ==
           \cup UNION {{<<j, "var">> : j \in Eat(ts, Exp(ts, p[1] + 1, ctx), "]")} : p \in {x \in S : Is(ts, x[1], "[")}}
           \cup UNION {{<<j, "call">> : j \in Args(ts, p[1] + 2, ctx)} : p \in {x \in S : Is(ts, x[1], ":") /\ Is(ts, x[1] + 1, "Name")}}
           \cup UNION {{<<j, "call">> : j \in Args(ts, p[1], ctx)} : p \in S}
-    IN Close(Primary(ts, i, ctx), Ext, Len(ts))
+        all == Close(Primary(ts, i, ctx), Ext, Len(ts))
+    (* The grammar of the manual is ambiguous here ("a = a (1).a = nil" could be two statements); Lua resolves it  *)
+    (* greedily: after a prefix expression a '(' always opens its argument list (lparser.c primaryexp loop), so a *)
+    (* suffixed expression never ends in front of a '('.  ('.', '[', ':', '{' and a String cannot start a        *)
+    (* statement, so only '(' needs saying.)                                                                      *)
+    IN {p \in all : ~Is(ts, p[1], "(")}
 
 (* field ::= '[' exp ']' '=' exp | Name '=' exp | exp *)
 Field(ts, i, ctx) ==
